@@ -1099,3 +1099,42 @@ func (w *World) RunPlain(argv []string, stdin []byte, cwd string) (stdout, stder
 	w.Count.Inc("procs.plain")
 	return ob.Bytes(), eb.Bytes(), code
 }
+
+// preempt2Sched: two preemptions. A runs to its K-th visible call; then B runs
+// to its KB-th visible call (typically: just after B acquired the lock) and
+// is parked there; A resumes and runs to its end; then everybody else. This
+// is the schedule that exposes "check / act / re-check" windows which need a
+// competitor to HOLD something while the first process continues.
+type preempt2Sched struct {
+	A, K  int
+	B, KB int
+	inner Scheduler
+}
+
+func (s *preempt2Sched) Pick(w *World, procs []*Proc, runnable []int) int {
+	pos := func(p int) int {
+		for i, r := range runnable {
+			if r == p {
+				return i
+			}
+		}
+		return -1
+	}
+	before := func(p, k int) bool {
+		return procs[p].State == psNew || procs[p].Pend != nil && procs[p].Pend.K < k
+	}
+	ai, bi := pos(s.A), pos(s.B)
+	if ai >= 0 && before(s.A, s.K) {
+		return ai
+	}
+	if bi >= 0 && before(s.B, s.KB) {
+		return bi
+	}
+	if ai >= 0 {
+		return ai
+	}
+	if bi >= 0 {
+		return bi
+	}
+	return s.inner.Pick(w, procs, runnable)
+}
